@@ -187,28 +187,24 @@ impl TryFrom<&str> for FeelDaysAndTimeDuration {
       let mut is_valid = false;
       let mut nanoseconds = 0_i128;
       if let Some(days_match) = captures.name("days") {
-        if let Ok(days) = days_match.as_str().parse::<u64>() {
-          nanoseconds += (days as i128) * NANOSECONDS_IN_DAY;
-          is_valid = true;
-        }
+        let days = days_match.as_str().parse::<u64>().map_err(|_| invalid_date_and_time_duration_literal(value.to_string()))?;
+        nanoseconds += (days as i128) * NANOSECONDS_IN_DAY;
+        is_valid = true;
       }
       if let Some(hours_match) = captures.name("hours") {
-        if let Ok(hours) = hours_match.as_str().parse::<u64>() {
-          nanoseconds += (hours as i128) * NANOSECONDS_IN_HOUR;
-          is_valid = true;
-        }
+        let hours = hours_match.as_str().parse::<u64>().map_err(|_| invalid_date_and_time_duration_literal(value.to_string()))?;
+        nanoseconds += (hours as i128) * NANOSECONDS_IN_HOUR;
+        is_valid = true;
       }
       if let Some(minutes_match) = captures.name("minutes") {
-        if let Ok(minutes) = minutes_match.as_str().parse::<u64>() {
-          nanoseconds += (minutes as i128) * NANOSECONDS_IN_MINUTE;
-          is_valid = true;
-        }
+        let minutes = minutes_match.as_str().parse::<u64>().map_err(|_| invalid_date_and_time_duration_literal(value.to_string()))?;
+        nanoseconds += (minutes as i128) * NANOSECONDS_IN_MINUTE;
+        is_valid = true;
       }
       if let Some(seconds_match) = captures.name("seconds") {
-        if let Ok(seconds) = seconds_match.as_str().parse::<u64>() {
-          nanoseconds += (seconds as i128) * NANOSECONDS_IN_SECOND;
-          is_valid = true;
-        }
+        let seconds = seconds_match.as_str().parse::<u64>().map_err(|_| invalid_date_and_time_duration_literal(value.to_string()))?;
+        nanoseconds += (seconds as i128) * NANOSECONDS_IN_SECOND;
+        is_valid = true;
       }
       if let Some(fractional_match) = captures.name("fractional") {
         nanoseconds += super::fraction_to_nanos(fractional_match.as_str()) as i128;
